@@ -7,6 +7,7 @@ import numpy as np
 import common
 import gen
 import refsym
+import replaylib as rl
 
 IMPORTS = ('From SV Require Import Base.Sym Base.Tensor Gen.PhasePerm Model.SymInst Model.Sectors Model.Array Model.Arith Model.Fermi.\n')
 SYMS = ['Z2', 'U1', 'Z2Z2', 'U1U1']
@@ -137,7 +138,8 @@ def run(ctx):
                 ctx.count()
                 # oracle: the routine is the odd-odd inversion parity
                 if cpp(par, perm) != (-1 if gen.inv_parity(par, perm) else 1):
-                    found.append({'op': 'calc_phase_permutation', 'parities': par, 'perm': perm, 'got': cpp(par, perm)})
+                    found.append({'op': 'calc_phase_permutation', 'parities': par, 'perm': perm, 'got': cpp(par, perm),
+                                  'replay': rl.record('phase_perm', {}, {'parities': par, 'perm': perm})})
     badp = common.run_cases(ctx, 'phaseperm', IMPORTS, '', pexprs, shard=400)
     tie_broken = []
     if badp is None:
@@ -149,6 +151,9 @@ def run(ctx):
         sym = SYMS[k % len(SYMS)]
         cplx = rng.random() < 0.25
         a, b, axa, axb = rand_fpair(rng, sr, sym, cplx)
+        # complete descriptions for the replay files, taken before any operation runs (an operation that
+        # changes its operand in place must not leak into the recorded input)
+        a_full, b_full = rl.describe_safe(a), rl.describe_safe(b)
         ring = gen.ring_of(a, b)
         A = '%s %s' % (sym, ring)
         # ---- transpose
@@ -158,7 +163,8 @@ def run(ctx):
         want = ref_transpose(sym, a, perm)
         got = gen.densify(t)
         if got.shape != want.shape or not np.array_equal(got, want):
-            found.append({'op': 'transpose', 'symmetry': sym, 'x': describe(a), 'perm': perm, 'got_dense': got.tolist(), 'expected_dense': want.tolist()})
+            found.append({'op': 'transpose', 'symmetry': sym, 'x': describe(a), 'perm': perm, 'got_dense': got.tolist(), 'expected_dense': want.tolist(),
+                          'replay': rl.record('transpose', {'x': a_full}, {'symmetry': sym, 'perm': perm})})
         if any(gen.inv_parity(pars(sym, s), perm) for s in a.blocks):
             stats['odd_crossing_transpose'] += 1
             ctx.nontrivial(('transpose', sym, str(sorted(a.blocks)), str(perm), str(sorted(a.phases))))
@@ -184,11 +190,13 @@ def run(ctx):
                 c = sr.tensordot(a, b, axes=(axa, axb), mode=mode, preserve_array=True)
             except Exception as e:
                 found.append({'op': 'tensordot', 'mode': mode, 'symmetry': sym, 'a': describe(a), 'b': describe(b), 'axes': [axa, axb],
-                              'raised': '%s: %s' % (type(e).__name__, e)})
+                              'raised': '%s: %s' % (type(e).__name__, e),
+                              'replay': rl.record('tensordot', {'a': a_full, 'b': b_full}, {'symmetry': sym, 'mode': mode, 'axes': [axa, axb], 'perm': perm})})
                 continue
             bad = check_result(c, want, free, labels)
             if bad:
-                found.append({'op': 'tensordot', 'mode': mode, 'symmetry': sym, 'a': describe(a), 'b': describe(b), 'axes': [axa, axb], **bad})
+                found.append({'op': 'tensordot', 'mode': mode, 'symmetry': sym, 'a': describe(a), 'b': describe(b), 'axes': [axa, axb], **bad,
+                              'replay': rl.record('tensordot', {'a': a_full, 'b': b_full}, {'symmetry': sym, 'mode': mode, 'axes': [axa, axb], 'perm': perm})})
             exprs.append('match f_tensordot %s %s %s %s %s with Some c => farray_eqb %s c %s | None => false end' % (
                 A, gen.gfarray(a, sym, ring), gen.gfarray(b, sym, ring), gaxes_spec(axa, axb), MODES[mode], A, gen.gfarray(c, sym, ring)))
             meta.append(('tensordot-' + mode, sym, k))
@@ -202,7 +210,8 @@ def run(ctx):
             s = sr.tensordot(a, b, axes=(axa, axb))
             if complex(s) != complex(want):
                 found.append({'op': 'tensordot->scalar', 'symmetry': sym, 'a': describe(a), 'b': describe(b), 'axes': [axa, axb],
-                              'got': complex(s), 'expected': complex(want)})
+                              'got': complex(s), 'expected': complex(want),
+                              'replay': rl.record('tensordot_scalar', {'a': a_full, 'b': b_full}, {'symmetry': sym, 'axes': [axa, axb], 'perm': perm})})
         # ---- matmul / trace on matrices
         if k % 2 == 0:
             cm0, cm1 = gen.rand_chargemap(rng, sym, maxsize=2), gen.rand_chargemap(rng, sym, maxsize=2)
@@ -217,12 +226,14 @@ def run(ctx):
                 want2, free2, labels2 = ref_tensordot(sym, m1, m2, [1], [0])
                 bad = check_result(c, want2, free2, labels2)
                 if bad:
-                    found.append({'op': 'matmul', 'symmetry': sym, 'a': describe(m1), 'b': describe(m2), **bad})
+                    found.append({'op': 'matmul', 'symmetry': sym, 'a': describe(m1), 'b': describe(m2), **bad,
+                                  'replay': rl.record('matmul', {'a': m1, 'b': m2}, {'symmetry': sym})})
                 exprs.append('match f_matmul %s %s %s with Some c => farray_eqb %s c %s | None => false end' % (
                     AM, gen.gfarray(m1, sym, ringm), gen.gfarray(m2, sym, ringm), AM, gen.gfarray(c, sym, ringm)))
                 meta.append(('matmul', sym, k))
             except Exception as e:
-                found.append({'op': 'matmul', 'symmetry': sym, 'a': describe(m1), 'b': describe(m2), 'raised': '%s: %s' % (type(e).__name__, e)})
+                found.append({'op': 'matmul', 'symmetry': sym, 'a': describe(m1), 'b': describe(m2), 'raised': '%s: %s' % (type(e).__name__, e),
+                              'replay': rl.record('matmul', {'a': m1, 'b': m2}, {'symmetry': sym})})
             # trace of a square fermionic matrix: + for bra-ket, sign per odd charge for ket-bra
             sq = gen.rand_lazy(rng, sr, gen.rand_array(rng, sr, sym, chargemaps=[cm0, cm0], duals=[d0, not d0], cplx=cplx, fermionic=True, charge=refsym.zero(sym), lo=-2, hi=2))
             ctx.count()
@@ -235,7 +246,8 @@ def run(ctx):
                         v = -v
                     wt += v
             if complex(tr) != complex(wt):
-                found.append({'op': 'trace', 'symmetry': sym, 'x': describe(sq), 'got': complex(tr), 'expected': complex(wt)})
+                found.append({'op': 'trace', 'symmetry': sym, 'x': describe(sq), 'got': complex(tr), 'expected': complex(wt),
+                              'replay': rl.record('trace', {'x': sq}, {'symmetry': sym})})
             rs = gen.ring_of(sq)
             exprs.append('match f_trace %s %s %s with Some v => reqb %s v (get %s %s []) | None => false end' % (
                 sym, rs, gen.gfarray(sq, sym, rs), rs, rs, gen.gtensor(np.asarray(tr), rs)))
@@ -251,7 +263,8 @@ def run(ctx):
             wantE = np.einsum('aab->b', dd)
             gotE = gen.densify(y, indices=[x3.indices[1]])
             if not np.array_equal(gotE, wantE):
-                found.append({'op': 'einsum aba->b', 'symmetry': sym, 'x': describe(x3), 'got': gotE.tolist(), 'expected': wantE.tolist()})
+                found.append({'op': 'einsum aba->b', 'symmetry': sym, 'x': describe(x3), 'got': gotE.tolist(), 'expected': wantE.tolist(),
+                              'replay': rl.record('einsum_aba', {'x': x3}, {'symmetry': sym})})
             r3 = gen.ring_of(x3)
             exprs.append('match f_einsum %s %s %s [0%%nat; 1%%nat; 0%%nat] [1%%nat] with Some c => aarray_eqb %s %s c %s | None => false end' % (
                 sym, r3, gen.gfarray(x3, sym, r3), sym, r3, gen.garray(y.phase_sync(), sym, r3)))
@@ -263,10 +276,11 @@ def run(ctx):
         tie_broken += ['Model.%s disagrees with the implementation (symmetry %s, case %d)' % meta[i] for i in bad_idx[:10]]
         ctx.extra['disagreeing_cases'] = [exprs[i][:3000] for i in bad_idx[:2]]
     for f in found[:5]:
-        ctx.violation('%s differs from the dense graded-tensor calculation' % f['op'], {'oracle': 'independent dense graded reference (harness/c03.py)', **f})
+        ctx.violation('%s differs from the dense graded-tensor calculation' % f['op'], {'oracle': 'independent dense graded reference (harness/c03.py)', **f, 'run': rl.run_info(ctx)})
     ctx.broken += tie_broken
     if (not ok or tie_broken) and not found:
-        ctx.violation('proof obligation or tie of C03 no longer checks', {'broken': ctx.broken}, found_input=False)
+        ctx.violation('proof obligation or tie of C03 no longer checks',
+                      {'broken': ctx.broken, 'replay': rl.record('proof_phase')}, found_input=False)
     ctx.extra['case_classes'] = stats
     ctx.extra['tie'] = {'model_cases': len(exprs), 'phase_perm_cases': len(pexprs)}
     ctx.coverage['rule'] = ('random fermionic pairs (rank 1-3, Z2/U1/Z2Z2/U1U1, random dualness, even and odd charge with int/tuple/str labels, '
@@ -275,7 +289,109 @@ def run(ctx):
                             'non-trivial = contraction with pending signs or odd parity, or a transpose crossing two odd legs; distinct by full structure')
 
 
+# ------------------------------------------------------------------ replay
+def _rp_phase_perm(sr, ins, pr, r):
+    from symmray.symmetries import calc_phase_permutation as cpp
+    par, perm = tuple(pr['parities']), tuple(pr['perm'])
+    got, want = cpp(par, perm), (-1 if gen.inv_parity(par, perm) else 1)
+    if got != want:
+        return [{'what': 'calc_phase_permutation(%r, %r) is not the odd-odd inversion parity' % (par, perm), 'expected': want, 'got': got}]
+    return []
+
+
+def _rp_transpose(sr, ins, pr, r):
+    a, perm = ins['x'], pr['perm']
+    t = a.transpose(tuple(perm))
+    want, got = ref_transpose(pr['symmetry'], a, perm), gen.densify(t)
+    if got.shape != want.shape or not np.array_equal(got, want):
+        return [{'what': 'x.transpose(%r) vs the dense graded transpose' % (tuple(perm),), 'expected': want.tolist(), 'got': got.tolist()}]
+    return []
+
+
+def _before(sr, a, b, pr, upto_mode):
+    """what the check did with a and b before the recorded call, in its order: the transpose of a, the
+    reference value, then the contraction in the modes that come first (results unused here)"""
+    axa, axb = pr['axes']
+    if 'perm' in pr:
+        try:
+            a.transpose(tuple(pr['perm']))
+        except Exception:
+            pass
+    ref = ref_tensordot(pr['symmetry'], a, b, axa, axb)
+    for mode in ('blockwise', 'fused', 'auto'):
+        if mode == upto_mode:
+            break
+        try:
+            sr.tensordot(a, b, axes=(axa, axb), mode=mode, preserve_array=True)
+        except Exception:
+            pass
+    return ref
+
+
+def _rp_tensordot(sr, ins, pr, r):
+    a, b = ins['a'], ins['b']
+    axa, axb = pr['axes']
+    what = 'tensordot(a, b, axes=%r, mode=%r) vs the dense graded contraction' % ((axa, axb), pr['mode'])
+    want, free, labels = _before(sr, a, b, pr, pr['mode'])
+    try:
+        c = sr.tensordot(a, b, axes=(axa, axb), mode=pr['mode'], preserve_array=True)
+    except Exception as e:
+        return [{'what': what + ': raises', 'expected': want.tolist() if want.size < 200 else 'large', 'got': '%s: %s' % (type(e).__name__, e)}]
+    return rl.fail_from(check_result(c, want, free, labels), what)
+
+
+def _rp_scalar(sr, ins, pr, r):
+    a, b = ins['a'], ins['b']
+    axa, axb = pr['axes']
+    want, free, labels = _before(sr, a, b, pr, None)
+    s = sr.tensordot(a, b, axes=(axa, axb))
+    if complex(s) != complex(want):
+        return [{'what': 'tensordot(a, b, axes=%r) as a scalar' % ((axa, axb),), 'expected': complex(want), 'got': complex(s)}]
+    return []
+
+
+def _rp_matmul(sr, ins, pr, r):
+    m1, m2 = ins['a'], ins['b']
+    want, free, labels = ref_tensordot(pr['symmetry'], m1, m2, [1], [0])
+    try:
+        c = m1 @ m2
+    except Exception as e:
+        return [{'what': 'a @ b raises', 'expected': want.tolist(), 'got': '%s: %s' % (type(e).__name__, e)}]
+    return rl.fail_from(check_result(c, want, free, labels), 'a @ b vs the dense graded contraction')
+
+
+def _rp_trace(sr, ins, pr, r):
+    sq, sym = ins['x'], pr['symmetry']
+    d0 = sq.indices[0].dual
+    tr = sq.trace()
+    wt = 0
+    for s, blk in sq.blocks.items():
+        if s[0] == s[1]:
+            v = np.trace(np.asarray(blk)) * (-1 if sq.phases.get(s, 1) == -1 else 1)
+            if (not d0) and refsym.par(sym, s[0]):
+                v = -v
+            wt += v
+    if complex(tr) != complex(wt):
+        return [{'what': 'x.trace() of a fermionic matrix', 'expected': complex(wt), 'got': complex(tr)}]
+    return []
+
+
+def _rp_einsum_aba(sr, ins, pr, r):
+    x3, sym = ins['x'], pr['symmetry']
+    y = x3.einsum('aba->b', preserve_array=True)
+    order = ([0, 2, 1] if x3.indices[0].dual else [2, 0, 1])
+    wantE = np.einsum('aab->b', ref_transpose(sym, x3, order))
+    gotE = gen.densify(y, indices=[x3.indices[1]])
+    if not np.array_equal(gotE, wantE):
+        return [{'what': "x.einsum('aba->b')", 'expected': wantE.tolist(), 'got': gotE.tolist()}]
+    return []
+
+
+ORACLES = {'phase_perm': _rp_phase_perm, 'transpose': _rp_transpose, 'tensordot': _rp_tensordot, 'tensordot_scalar': _rp_scalar,
+           'matmul': _rp_matmul, 'trace': _rp_trace, 'einsum_aba': _rp_einsum_aba}
+
+
 def replay(path):
-    r = json.load(open(path))
-    print(json.dumps(r, indent=1)[:4000])
-    return 0
+    """re-run the recorded failing case against $SYMMRAY_REPO: 1 = still fails, 0 = passes now"""
+    import sys
+    return rl.dispatch(path, 'C03', ORACLES, sys.modules[__name__])
